@@ -65,6 +65,15 @@ pub fn judge(rep: &mut Report, line: &[u8], op: &str, field: &str) -> &'static s
         }
         _ => {}
     }
+    rep.sample(6, || {
+        let mut o = J::obj();
+        o.set("operator", J::s(op));
+        o.set("field", J::s(field));
+        o.set("line", J::bytes(&line[..line.len().min(140)]));
+        o.set("reference", J::s(refv));
+        o.set("observed", J::s(out.kind()));
+        o
+    });
     rep.class(format!("{}|{}|{}", op, field, refv));
     rep.count(refv);
     refv
